@@ -306,8 +306,8 @@ Proof.
          split; [lia|]; split; [exact Hstrict|]; split; [congruence|]; split; assumption).
   destruct (P3 eq_refl) as [Q1 Q2]. pose proof BUFSZ_pos.
   destruct (IH (acc ++ line) b1) as (l2 & e2 & b2 & H2 & R1 & R2 & R3 & R4 & R5); [congruence|lia|].
-  exists l2, e2, b2; split; [exact H2|]. repeat split; auto; try lia; try congruence.
-  intros He; specialize (R2 He); lia.
+  exists l2, e2, b2; split; [exact H2|].
+  split; [lia|]. split; [intros He; specialize (R2 He); lia|]. split; [exact R3|]. split; [exact R4|]. congruence.
 Qed.
 
 Lemma bwrite_pot b k : pot (bwrite b k) = pot b.
